@@ -3,11 +3,11 @@ package main
 import (
 	"encoding/json"
 	"fmt"
+	"go/token"
+	"go/types"
 	"os"
 	"path/filepath"
 	"sort"
-	"go/token"
-	"go/types"
 	"strings"
 
 	"golang.org/x/tools/go/ssa"
@@ -731,7 +731,9 @@ func runC15(c *Ctx) {
 					if !isRem || rem.Op != token.REM || stripConv(rem.X) != ssa.Value(ops[0]) {
 						return
 					}
-					if !lenOf(stripConv(rem.Y), func(v ssa.Value) bool { return sameSliceValue(v, ia.X) || loadedCell(v) != nil && loadedCell(v) == loadedCell(ia.X) }) {
+					if !lenOf(stripConv(rem.Y), func(v ssa.Value) bool {
+						return sameSliceValue(v, ia.X) || loadedCell(v) != nil && loadedCell(v) == loadedCell(ia.X)
+					}) {
 						return
 					}
 					for _, r := range refs(ia) {
